@@ -36,6 +36,10 @@ KINDS = [
     "\t...",
     "  401007:\t33 22 11 ",
     "  40100a:\t06                   \t(bad)",
+    "  40100b:\t66                   \tdata16",
+    "  40100c:\tf0                   \tlock",
+    "  40100d:\t48                   \trex.W",
+    "  40100e:\t48 b8 88 77 66 55 44 \tmovabs $0x1122334455667788,%rax",
 ]
 
 
@@ -44,11 +48,21 @@ def bounds(tier):
 
 
 def shards(tier):
-    return ob.window_shards(tier) + [{"kind": "lines", "lo": i, "n": 8} for i in range(8)]
+    return ob.window_shards(tier) + ob.eos_shards(tier) + [{"kind": "exotic"}] + [{"kind": "lines", "lo": i, "n": 8} for i in range(8)]
+
+
+CONFIGS = [None, {"valid_addr_range": {"min": "401000", "max": "401fff"}}, {"mnemonics-full-match": True, "operands-full-match": True},
+           {"sections": [".text"]}]
 
 
 def run_lines(shard, tier, h, res, known, clauses):
-    mop = h.mop(ob._TRIVIAL_RULE)
+    for conf in CONFIGS:
+        run_lines_conf(shard, tier, h, res, known, clauses, conf)
+
+
+def run_lines_conf(shard, tier, h, res, known, clauses, conf):
+    from mc.common import make_rule_doc
+    mop = h.mop(make_rule_doc(["zzzznomatch"], conf))
     L = bounds(tier)["line_seq_len"]
     seqs = [s for n in range(0, L + 1) for s in itertools.product(range(len(KINDS)), repeat=n)]
     for si in range(shard["lo"], len(seqs), shard["n"]):
@@ -58,25 +72,30 @@ def run_lines(shard, tier, h, res, known, clauses):
         if cnt["inst_lines"]:
             res.nontrivial += 1
         for clause, line, exp, obs in problems:
-            res.fail({"clause": clause, "family": "lines", "text": text, "line": line, "expected": str(exp), "observed": str(obs),
-                      "size": len(text)}, known)
+            res.fail({"clause": clause, "family": "lines", "text": text, "config": conf, "line": line, "expected": str(exp),
+                      "observed": str(obs), "size": len(text)}, known)
 
 
 def run_shard(shard, tier, h, res, known):
     if shard["kind"] == "lines":
         run_lines(shard, tier, h, res, known, CLAUSES)
+    elif shard["kind"] == "eos":
+        ob.run_eos_shard(shard, tier, h, res, known, CLAUSES, ID)
+    elif shard["kind"] == "exotic":
+        ob.run_exotic(h, res, known, CLAUSES)
     else:
         ob.run_window_shard(shard, tier, h, res, known, CLAUSES, ID)
 
 
 def controls(h):
     c = [rm.classify_line(k)[0] for k in KINDS]
-    if c != ["inst", "inst", "other", "other", "other", "other", "other", "cont", "inst"]:
+    if c != ["inst", "inst", "other", "other", "other", "other", "other", "cont", "inst", "inst", "inst", "inst", "inst"]:
         raise HarnessError(f"line classifier wrong on the line kinds: {c}")
 
 
 def replay(case, h):
     if case.get("family") == "lines":
-        problems, _ = ob.analyse_text(h, h.mop(ob._TRIVIAL_RULE), case["text"], CLAUSES)
+        from mc.common import make_rule_doc
+        problems, _ = ob.analyse_text(h, h.mop(make_rule_doc(["zzzznomatch"], case.get("config"))), case["text"], CLAUSES)
         return bool(problems), str(problems)
     return ob.replay_line(case, h, CLAUSES)
